@@ -2,6 +2,7 @@ package c04
 
 import (
 	"fmt"
+	"github.com/influxdata/kapacitor/tick/stateful"
 	"math"
 	"strings"
 	"time"
@@ -17,6 +18,8 @@ type gen struct {
 	usedStat map[string]bool // at most one call site per stateful function
 	illRate  float64
 	stateful bool
+	// smallInts: no integer literals beyond 2^53 (JSON consumers lose them, reported separately)
+	smallInts bool
 }
 
 var intLits = []string{"0", "1", "2", "3", "7", "10", "100", "9223372036854775807", "4611686018427387904"}
@@ -47,6 +50,9 @@ func (g *gen) ref(t rtype) string {
 func (g *gen) lit(t rtype) string {
 	switch t {
 	case tInt:
+		if g.smallInts {
+			return g.r.Pick(intLits[:7])
+		}
 		return g.r.Pick(intLits)
 	case tFloat:
 		return g.r.Pick(floatLits)
@@ -326,4 +332,46 @@ func valString(v interface{}) string {
 		return "nil"
 	}
 	return fmt.Sprintf("%v", v)
+}
+
+// ---- exported for other monitors (C13, C10, C06) ------------------------------------------------
+
+// GenLambda returns a generated lambda expression text of boolean / numeric / string type.
+// kind: "bool", "int", "float", "string", "duration", "any".
+func GenLambda(r *core.Rng, kind string, depth int, stateful bool) string {
+	g := &gen{r: r, usedStat: map[string]bool{}, illRate: 0, stateful: stateful, smallInts: true}
+	t := tBool
+	switch kind {
+	case "int":
+		t = tInt
+	case "float":
+		t = tFloat
+	case "string":
+		t = tString
+	case "duration":
+		t = tDur
+	case "any":
+		t = valueTypes[r.Intn(len(valueTypes))]
+	}
+	return g.expr(t, depth)
+}
+
+// RandScope draws a scope over the generator's variable names.
+func RandScope(r *core.Rng, drift float64) map[string]interface{} { return randScope(r, drift) }
+
+// EvalOutcome evaluates a lambda node on a scope and renders the outcome canonically
+// (value with type, or "error").
+func EvalOutcome(e interface {
+	Eval(*stateful.Scope) (interface{}, error)
+}, sc map[string]interface{}) (out string) {
+	defer func() {
+		if r := recover(); r != nil {
+			out = "PANIC: " + fmt.Sprint(r)
+		}
+	}()
+	v, err := e.Eval(realScope(sc))
+	if err != nil {
+		return "error"
+	}
+	return valString(v)
 }
